@@ -126,19 +126,43 @@ class GetBytesFromCode(Contract):
     # nothing about the stream content is needed here (only that compress_code returns a bytearray)
     assume_clauses = {'pico8.game.compress:compress_code': ()}
 
-    def setup(self, K):
+    variants = (None, 'huge')
+    example_budget_s = 400          # compressing a 64 KiB example with the real brute-force compressor takes minutes
+    implicit_raises = ('ValueError',)
+    raises_in_ensures = ('InvalidP8PNGError', 'ValueError')
+
+    def setup(self, K, variant=None):
         a = {'code': K.bytes('code')}
         self.a = a
+        self.variant = variant
         return a
 
-    def requires(self, K, a):
+    def requires(self, K, a, variant=None):
+        # 'huge': text whose length does not fit the two-byte length header -- it can never fit the cart
+        if getattr(self, 'variant', None) == 'huge':
+            return SSeq.of(a['code']).n > 0xffff
         return SSeq.of(a['code']).n <= 0xffff
 
-    def witness(self, K):
+    def call_hook(self, ex, node, f, args, kw, st):
+        from pyvc.execu import FuncVal, ModVal
+        import ast
+        if getattr(self, 'variant', None) == 'huge' and ast.unparse(node.func) == 'compress.compress_code':
+            # nothing about the stream is needed: ANY byte string may come back (over-approximation)
+            ex.abstract_calls = True
+            return st.alloc(V.byte_seq('compressed'), 'bytearray')
+        return NotImplemented
+
+    def witness(self, K, variant=None):
+        if variant == 'huge':
+            return {'code': SSeq.of(b'print("hello")\n' * 4400)}
         return {'code': SSeq.of(b'print("hello") print("hello") print("hello")\n')}
 
-    def examples(self, rnd):
+    def examples(self, rnd, variant=None):
         import hashlib
+        if variant == 'huge':
+            yield {'code': SSeq.of(b'a' * 0x10000)}
+            yield {'code': SSeq.of(b'print("hello")\n' * 4400)}
+            return
         yield {'code': SSeq.of(b'')}
         yield {'code': SSeq.of(b'a')}
         yield {'code': SSeq.of(b'x=1\n')}
@@ -158,12 +182,17 @@ class GetBytesFromCode(Contract):
     def ensures(self, K, a, old, res):
         code = SSeq.of(a['code'])
         loc = K.st.locals
+        if getattr(self, 'variant', None) == 'huge':
+            # never written truncated: a text of 64 KiB or more must be refused, whichever way
+            return [('text-that-cannot-fit-is-refused-with-an-error', res.raised())]
         if 'compressed_bytes' not in loc:
             # call site / judging a real run: only what does not depend on the (deterministic but abstract) compressor
             if res.raised():
                 return [('refused-only-if-the-raw-text-does-not-fit', code.n > CODE_AREA)] if '__observed__' in loc else []
             r = K.seq(res.value)
             return [('area-size', r.n == CODE_AREA)]
+        if res.raised('ValueError'):
+            return [('ValueError-only-for-huge-text', False)]
         comp = K.seq(loc['compressed_bytes'])
         use_c = comp.n < code.n
         size = ite(use_c, comp.n + 8, code.n)
@@ -210,7 +239,7 @@ class GetCodeFromBytes(Contract):
                     r = ite(i == k, hdr[k], r)
                 return r
             a['codedata'] = SSeq(CODE_AREA, cdf, 'list')
-            a['version'] = K.int('version', 1, 255)
+            a['version'] = K.int('version', 0, 255)
         self.a = a
         return a
 
@@ -226,13 +255,14 @@ class GetCodeFromBytes(Contract):
 
     def is_compressed(self, a):
         cd = SSeq.of(a['codedata'])
-        return AND(NOT(a['version'] == 0), cd.get(0) == 58, cd.get(1) == 99, cd.get(2) == 58, cd.get(3) == 0)
+        # the header alone decides (a cart of any version written by picotool may be compressed)
+        return AND(cd.get(0) == 58, cd.get(1) == 99, cd.get(2) == 58, cd.get(3) == 0)
 
     def requires(self, K, a):
         cd = SSeq.of(a['codedata'])
         if '__S' in a:
             from contracts.compress import Decompress
-            return AND(cd.n == CODE_AREA, NOT(a['version'] == 0), Decompress().requires(K, a))
+            return AND(cd.n == CODE_AREA, Decompress().requires(K, a))
         return AND(cd.n == CODE_AREA, NOT(self.is_compressed(a)))
 
     def ensures(self, K, a, old, res):
